@@ -353,6 +353,7 @@ def _block_of(repo, st):
 def run(ctx):
     """R08.6: without --out the designated output is stdout, so nothing but the result may be written there.
     Log records are the one other thing the command emits on every run: the logging set-up must keep them on stderr."""
+    ctx.rule('R08.7', 'read_notebook substitutes an empty notebook for an unreadable input only if the file is empty (pure emptiness test before the fallback)', floor=1)
     ctx.rule('R08.6', 'log records never go to stdout (where the merged notebook is written when no --out is given): logging is configured '
              'with the default stderr stream', floor=1)
     _run_base(ctx)
@@ -372,3 +373,17 @@ def run(ctx):
                          'which is then not well-formed JSON although the exit status reports success', c)
     if n == 0:
         raise AnalysisError('no logging configuration call found in the package (nbdime.log.init_logging moved?)')
+
+    from ..util import empty_file_fallback_sites, pure_emptiness_test
+    rn = repo.func('nbdime.utils:read_notebook')
+    hs = empty_file_fallback_sites(rn)
+    if not hs:
+        raise AnalysisError('utils.read_notebook: no NotJSONError handler found')
+    for h, sites in hs:
+        if not sites:
+            raise AnalysisError('utils.read_notebook: empty-file test not found in the NotJSONError handler')
+        for x in sites:
+            ok = pure_emptiness_test(x.test)
+            ctx.inst('R08.7', 'nbdime.utils:read_notebook', 'if %s: raise' % repo.norm(x.test), ok,
+                     'only a 0-byte input is replaced by an empty notebook' if ok else
+                     'a corrupt (non-empty) input can be replaced by an empty notebook: the command then reports success on a merge of the wrong content', x)
